@@ -1,4 +1,5 @@
 import GqlVerif.Proofs.C01VariantSpreadF
+import GqlVerif.Proofs.C01VariantSpreadH
 /-!
 # C01 / C03 end to end: `VariantSpreadOp2` — acceptance, precision, losslessness (part G)
 
@@ -12,6 +13,8 @@ selections on `T`, the shape of the defect repaired by fix 78c01b5).  The emitte
 * `reach_norm` / `topEnvS2_of_module` — the environment of the emitted module, for the normalized operation;
 * `variantspread2_accepts`, `variantspread2_precise_iff`, `variantspread2_precise`, `variantspread2_lossless`,
   `variantspread2_roundtrip` — stated with the specification of the **original** operation;
+* `variantspread2_content`, `variantspread2_roundtrip_content` — the closed form has the content of the response
+  (`SameContent` of `C01VariantSpreadH`);
 * `variantSpreadOp2_of_variantSpreadOp` — the class only grows;
 * a generated module (`a2Query`: `hero { __typename ... on Human { ...HF } ... on Human { h2: height } ...HG }`) with every
   hypothesis evaluated, and necessity witnesses for the new side conditions.
@@ -393,6 +396,25 @@ theorem variantspread2_roundtrip (c : Ctx) (opIdx : Nat) (op : ROperation) (item
   unfold Serde.roundtrip
   rw [hv]
   exact variantspread2_lossless c opIdx op items hop ht hgen hok hr j hc v hv
+
+/-- **`variantspread2_content`**: the closed form of `variantspread2_lossless` / `variantspread2_roundtrip` has the content of
+    the response (`SameContent` of `C01VariantSpreadH`) -/
+theorem variantspread2_content (c : Ctx) (op : ROperation) (ht : VariantSpreadOp2 c op = true) (j : Json)
+    (hc : conformsOpS c op j = true) :
+    SameContent c.o.skipNone j (normJson (canonSelD c.s c.q c.o.skipNone (normSels op.sels) j)) := by
+  obtain ⟨hwf, _, ht'⟩ := variantSpreadOp2_parts ht
+  have hc' : conformsOpS c (normOp op) j = true := by
+    unfold conformsOpS
+    rw [normOp_sels, normOp_objectId, conformsV_norm c.s c.q op.sels hwf]; exact hc
+  exact variantspread_content c (normOp op) ht' j hc'
+
+/-- **`variantspread2_roundtrip_content`**: the round trip returns a response with the same content -/
+theorem variantspread2_roundtrip_content (c : Ctx) (opIdx : Nat) (op : ROperation) (items : List Item)
+    (hop : c.q.operations[opIdx]? = some op) (ht : VariantSpreadOp2 c op = true)
+    (hgen : responseForQuery c opIdx = .ok items) (hok : moduleOk c items = true)
+    (hr : spreadRustOkD c (normOp op) = true) (j : Json) (hc : conformsOpS c op j = true) :
+    ∃ j', Serde.roundtrip (moduleEnv c items) (.path "ResponseData") j = .ok j' ∧ SameContent c.o.skipNone j j' :=
+  ⟨_, variantspread2_roundtrip c opIdx op items hop ht hgen hok hr j hc, variantspread2_content c op ht j hc⟩
 
 /-! ## the class only grows -/
 
